@@ -16,10 +16,21 @@ package scheduling
 //@ func NewNodeClaimTemplate
 //@   prop C03 C13
 //@   requires [pool] nodePool != nil
+//@   assumes [validated] scheduling.normIdem(0) && scheduling.selsOK(nodePool.Spec.Template.Spec.Requirements) && scheduling.selsDisjoint(nodePool.Spec.Template.Spec.Requirements)
 //@   modifies *
-//@   let tmpl = @(*NodeClaimTemplate).ToNodeClaim
+//@   after scheduling.NewNodeSelectorRequirementsWithMinValues assume [callerSetKept] nct.Requirements != nil && scheduling.rsInv(nct.Requirements)
+//@   after (Requirements).Values assume [valuesOfASet] scheduling.addArgsOK($r0)
 //@   let hash = @(*NodePool).Hash
-//@   let ann = atcall(@lo.Assign#1, result.Annotations)
+//@   let classKey = @fmt.Sprintf
+//@   let ann = beforecall(@scheduling.NewNodeSelectorRequirementsWithMinValues, result.Annotations)
+//@   let lab = beforecall(@scheduling.NewNodeSelectorRequirementsWithMinValues, result.Labels)
 //@   ensures [own] fresh(result)
-//@   ensures [namesThePool] result.NodePoolName == nodePool.Name
-//@   ensures [staticIffReplicas] result.IsStaticNodeClaim == (nodePool.Spec.Replicas != nil)
+//@   ensures [namesThePool] result.NodePoolName == old(nodePool.Name)
+//@   ensures [staticIffReplicas] result.IsStaticNodeClaim == old(nodePool.Spec.Replicas != nil)
+//@   ensures [hash] beforecall(@scheduling.NewNodeSelectorRequirementsWithMinValues, (v1.NodePoolHashAnnotationKey in ann) && ann[v1.NodePoolHashAnnotationKey] == hash)
+//@   ensures [hashVersion] beforecall(@scheduling.NewNodeSelectorRequirementsWithMinValues, (v1.NodePoolHashVersionAnnotationKey in ann) && ann[v1.NodePoolHashVersionAnnotationKey] == v1.NodePoolHashVersion)
+//@   ensures [templateAnnotationsKept] beforecall(@scheduling.NewNodeSelectorRequirementsWithMinValues, forall k string {k in ann} {ann[k]} :: (k != v1.NodePoolHashAnnotationKey && k != v1.NodePoolHashVersionAnnotationKey) ==> (((k in ann) <==> old(k in nodePool.Spec.Template.Annotations)) && ann[k] == old(nodePool.Spec.Template.Annotations[k])))
+//@   ensures [poolLabel] beforecall(@scheduling.NewNodeSelectorRequirementsWithMinValues, classKey != v1.NodePoolLabelKey ==> ((v1.NodePoolLabelKey in lab) && lab[v1.NodePoolLabelKey] == old(nodePool.Name)))
+//@   ensures [templateLabelsKept] beforecall(@scheduling.NewNodeSelectorRequirementsWithMinValues, forall k string {k in lab} {lab[k]} :: (k != v1.NodePoolLabelKey && k != classKey) ==> (((k in lab) <==> old(k in nodePool.Spec.Template.Labels)) && lab[k] == old(nodePool.Spec.Template.Labels[k])))
+//@   site lo.Assign #1 requires [computedPairLast] len($0) == 2 && $0[0] == old(nodePool.Spec.Template.Annotations) && (v1.NodePoolHashAnnotationKey in $0[1]) && $0[1][v1.NodePoolHashAnnotationKey] == hash && (v1.NodePoolHashVersionAnnotationKey in $0[1]) && $0[1][v1.NodePoolHashVersionAnnotationKey] == v1.NodePoolHashVersion
+//@   site lo.Assign #2 requires [poolLabelLast] len($0) == 2 && $0[0] == old(nodePool.Spec.Template.Labels) && (classKey != v1.NodePoolLabelKey ==> ((v1.NodePoolLabelKey in $0[1]) && $0[1][v1.NodePoolLabelKey] == old(nodePool.Name)))
